@@ -189,7 +189,8 @@ pub fn parent_main(p: &ParentCfg, expected_scenarios: &[(String, usize)]) -> i32
         total.complete &= c;
     }
     let mut ev = Evidence::new(&p.property, &p.tier, p.seed, &p.level);
-    let (violations, known) = evidence::triage(&p.property, total.violations.clone());
+    let (violations, mut known) = evidence::triage(&p.property, total.violations.clone());
+    known.extend(total.known.iter().cloned());
     let mut replay_paths = Vec::new();
     for v in &violations {
         replay_paths.push(evidence::write_replay(v));
